@@ -824,7 +824,8 @@ def _run(tier, seed):
             B.sample(s)
     B.evaluations = total
     extra = total
-    fails.sort(key=lambda f: (f[0], len(f[3]), f[1], f[2].get('pi') is False, cfg_text(f[2]), f[3]))
+    fails.sort(key=lambda f: (f[0], len(f[3]), f[1], f[2].get('pi') is False,
+                              NOV_KINDS.index(f[2]['nov']) if f[2].get('nov') else 0, cfg_text(f[2]), f[3]))
     seen = {}
     budget = {}
     for clause, layer, cfg, ops, detail in fails:
